@@ -5,7 +5,7 @@ from . import inputs, hist, synth
 PROP = 'C14'
 LEVEL = 'exploration'
 WALL_CAP = {'quick': 300, 'thorough': 3000}
-RUNS = {'quick': 5000, 'thorough': 50000}
+RUNS = {'quick': 3500, 'thorough': 50000}
 RULE = ('one run = source model S (sample or API-built, every geometry kind, skinned or not, model-space shaders) and destination D in {S itself, fresh Create(version), '
         'another loaded/built model of the same version}; steps: CloneShape (repeated), restart of D (raw/default save, forget, load), destruction of S followed by use of D, '
         'query battery on D. Oracle per clone: geometry, weights, bone list and texture paths equal the source\'s (normals/tangents exempt for model-space shaders in SK/SSE); '
@@ -44,7 +44,15 @@ def gen_plan(seed, i, tier):
     dest = rng.weighted([('same', 3), ('fresh', 4), ('other', 3)])
     plan = {'property': PROP, 'profile': 'clone', 'run_index': i, 'init': init, 'dest': dest, 'timeout_s': 90, 'destroy_dest_first': rng.chance(0.5)}
     if dest == 'other':
-        plan['dest_init'] = some_init()
+        if rng.chance(0.4):
+            # a destination that already holds part of the source's content: the same model with shapes and (leaf) bone nodes removed
+            import copy
+            di = copy.deepcopy(init)
+            di['edits'] = [{'op': rng.choice(['DeleteShape', 'DeleteNode', 'DeleteNode', 'DeleteSkinning']), 'shape': rng.below(8), 'salt': rng.below(1 << 30)}
+                           for _ in range(rng.range(1, 5))]
+            plan['dest_init'] = di
+        else:
+            plan['dest_init'] = some_init()
     steps = []
     for _ in range(rng.range(1, 4)):
         steps.append({'op': 'Clone', 'shape': rng.below(8)})
